@@ -470,10 +470,10 @@ fn issue(op: &Op, r: i64, i: usize, c: &mut Commands, acc: Option<&mut Access>, 
             if *x == 1 { acc.c1.single_noreact().1.0 = *v; } else { acc.c2.single_noreact().1.0 = *v; }
             ret = json!(1);
         }
-        Op::XDesp(_) | Op::XDespRec(_) | Op::XRm(_, _) | Op::XBc(_, _) | Op::XEEv(_, _, _) | Op::XSysEv(_, _) =>
+        Op::XDesp(_) | Op::XDespRec(_) | Op::XRm(_, _) | Op::XBc(_, _) | Op::XEEv(_, _, _) | Op::XSysEv(_, _) | Op::XRes(_) =>
         {
             let op = op.clone();
-            ret = json!(if matches!(op, Op::XBc(..) | Op::XEEv(..) | Op::XSysEv(..)) { 0 } else { 1 });
+            ret = json!(if matches!(op, Op::XBc(..) | Op::XEEv(..) | Op::XSysEv(..) | Op::XRes(..)) { 0 } else { 1 });
             c.queue(move |w: &mut World| direct(w, &op));
         }
         Op::DespSys(s) =>
@@ -592,6 +592,7 @@ fn direct(w: &mut World, op: &Op)
             if *t == 1 { w.entity_event(e, B1(*p)); } else { w.entity_event(e, B2(*p)); }
         }
         Op::XSysEv(s, p) => { if let Some(e) = sys_entity(*s) { w.send_system_event(SystemCommand(e), P1(*p, None)); } }
+        Op::XRes(x) => { if *x == 1 { w.trigger_resource_mutation::<R1>(); } else { w.trigger_resource_mutation::<R2>(); } }
         _ => panic!("not a direct op: {:?}", op),
     }
 }
@@ -779,7 +780,7 @@ pub fn run_program(cfg: &Config, steps: &mut dyn Iterator<Item = Step>, source: 
                     let step = -(n as i64);
                     for (i, op) in ops.iter().enumerate()
                     {
-                        let ret = if matches!(op, Op::XBc(..) | Op::XEEv(..) | Op::XSysEv(..)) { 0 } else { 1 };
+                        let ret = if matches!(op, Op::XBc(..) | Op::XEEv(..) | Op::XSysEv(..) | Op::XRes(..)) { 0 } else { 1 };
                         emit(json!({"t":"issue","r":step,"i":i+1,"op":op.to_json(),"ret":ret}));
                     }
                     for (i, op) in ops.iter().enumerate()
